@@ -276,7 +276,14 @@ def _rebase_acc(ck, p, byk):
             good = all(re.match(r"^\+len\(item\)@bb\d+ \+1$", d) for d in deltas) and len(deltas) == 1
             ok = good
             detail = "tokens are shifted by the offset at the start of the iteration (%s); on every back edge the offset has advanced by %s" % (cx.show(phi), sorted(deltas))
-        ck.decide(rule, "acc:" + key, ok, f.span, detail)
+            if not good and "?" in deltas:
+                ok = None
+        elif not heads_in or snap.get("closure") is None:
+            ok = None       # the loop is not of the shape "shift by the accumulator, then advance it"
+        if ok is None:
+            ck.undecided(rule, "acc:" + key, f.span, "the per-line offset arithmetic could not be summarised (%s): not decided" % detail)
+        else:
+            ck.decide(rule, "acc:" + key, ok, f.span, detail)
 
 
 # ---------------------------------------------------------------------------------------------------
